@@ -225,7 +225,7 @@ def guarded(fn):
 
 # ------------------------------------------------------------------------------------------------ one task
 def array_task(kind, deriv, dtype='float64', quantities=('isna', 'bounds', 'total_bounds', 'intersects_bounds', 'length', 'area'),
-               flags=False, timeout=120, seed=0, base=None):
+               flags=False, timeout=120, seed=0, base=None, inert=False):
     """-> result dict with per-quantity verdicts"""
     t0 = time.time()
     values.set_mul_mode('uf')
@@ -318,6 +318,16 @@ def array_task(kind, deriv, dtype='float64', quantities=('isna', 'bounds', 'tota
                     findings.append(('intersects_bounds', f'inds={inds}', 'mismatch', f'length {len(o.vals)}'))
                 else:
                     checks.append((f'intersects_bounds[inds={inds}]', z3.Or(*[as_bool_term(o.vals[k]) != canon[j] for k, j in enumerate(inds)])))
+        if inert and not o.exc and len(o.vals) == n:
+            # an element without any finite coordinate never intersects a box
+            terms = []
+            for j in range(n):
+                cs = [Num.lift(c) for c in T.coords_of(kind, syms[j])]
+                if syms[j] is not None and cs:
+                    terms.append(z3.And(*[z3.Not(c13.finite(c)) for c in cs], as_bool_term(o.vals[j])))
+                elif syms[j] is None or not cs:
+                    terms.append(as_bool_term(o.vals[j]))
+            checks.append(('inert element never intersects', z3.Or(*terms) if terms else z3.BoolVal(False)))
         for j in range(n):
             def scalar(j=j):
                 e = arr[j]
@@ -359,6 +369,12 @@ def array_task(kind, deriv, dtype='float64', quantities=('isna', 'bounds', 'tota
     # ---- solve
     s = z3.Solver()
     s.add(*ts.cons)
+    if flags:
+        # domain: an element has finite coordinates throughout, or none at all (inert); mixed elements are outside C01/C17
+        for sm in syms:
+            cs = [Num.lift(c) for c in T.coords_of(kind, sm)]
+            if cs:
+                s.add(z3.Or(z3.And(*[c13.finite(c) for c in cs]), z3.And(*[z3.Not(c13.finite(c)) for c in cs])))
     res = {}
     solver_s = 0.0
     nq = 0
@@ -405,13 +421,19 @@ def concrete_array(kind, specs, dtype, model):
         v, _s = T.build_element(ts, kind, sp)
         py.append(v)
     vals = _concrete_values(model or {}, ts.n)
+    isfloat = np.dtype(dtype).kind == 'f'
 
     def sub(x):
         if isinstance(x, list):
             return [sub(e) for e in x]
         if x is None:
             return None
-        return vals[(int(x) - T.TAG_BASE) // T.TAG_STEP]
+        i = (int(x) - T.TAG_BASE) // T.TAG_STEP
+        if isfloat and model and model.get(f't{i}_nan'):
+            return float('nan')
+        if isfloat and model and model.get(f't{i}_inf'):
+            return float('inf') * model[f't{i}_inf']
+        return vals[i]
     return T.array_class(kind)([sub(e) for e in py], dtype=dtype)
 
 
@@ -575,7 +597,7 @@ def finding_key(pid, kind, finding, specs=None, wit=None):
     return f"{pid}:{kind}:{q}:{fm}:{'raises' if problem == 'raises' else 'wrong-value'}{extra}"
 
 
-def run_arrays(check, pool, Task, pid, quantities, kinds=None, derivs=None, dtypes=('float64',), label='wrappers', flags=False):
+def run_arrays(check, pool, Task, pid, quantities, kinds=None, derivs=None, dtypes=('float64',), label='wrappers', flags=False, bases=None, inert=False):
     """schedule array_task for every (kind, derivation, dtype); replay findings; record obligations"""
     kinds = kinds or list(BASE)
     derivs = derivs or QUICK_DERIVS
@@ -584,9 +606,11 @@ def run_arrays(check, pool, Task, pid, quantities, kinds=None, derivs=None, dtyp
     for kind in kinds:
         for dt in dtypes:
             for d in derivs:
-                nm = f"{label}:{kind}[{dt}] {d} -> {','.join(quantities)}"
-                tasks.append(Task(nm, array_task, (kind, d), {'dtype': dt, 'quantities': tuple(quantities), 'timeout': 120, 'seed': check.seed, 'flags': flags},
-                                  timeout=cap, meta={'kind': kind, 'deriv': d, 'dtype': dt}))
+                for bi, base in enumerate((bases or {}).get(kind, [None])):
+                    nm = f"{label}:{kind}[{dt}] {d}{'' if base is None else ' elements=' + str(base)} -> {','.join(quantities)}"
+                    tasks.append(Task(nm, array_task, (kind, d), {'dtype': dt, 'quantities': tuple(quantities), 'timeout': 120, 'seed': check.seed, 'flags': flags,
+                                                                   'base': base, 'inert': inert},
+                                      timeout=cap, meta={'kind': kind, 'deriv': d, 'dtype': dt}))
     tasks.sort(key=lambda t: -T.NEST[t.meta['kind']])
     res = pool(tasks)
     for t in tasks:
